@@ -130,6 +130,11 @@ def assign_configs(ctx, scripts):
                     if len(seen) >= 3:
                         break
                 sweep += [dict(blank, k=k) for k in uniq]
+            # a slow consumer: all records are queried, three records are written while the results wait, then they are read
+            if len(puts) >= 2:
+                sweep.append(dict(blank, op="Query", late=3))
+                sweep += [dict(st, op="Put") for st in (puts[-3:] if len(puts) >= 3 else puts + puts[:1])]
+                sweep += [dict(blank, k=k) for k in uniq]
             s["steps"] += sweep
             s["swept"] = True
         sel = list(fast)
